@@ -92,7 +92,7 @@ REACH = ["honest_attestation", "wrong_subject_refused", "wrong_subject_with_own_
          "expired_registration_refused", "just_below_300s_attested", "replay_refused",
          "tampered_disclosure_refused", "third_party_attestation_refused", "valid_attestation_stored",
          "missing_request_unpermitted_refused", "missing_request_beyond_index_limited",
-         "long_chain_missing_tokens_served", "authority_restarted"]
+         "long_chain_missing_tokens_served", "authority_restarted", "two_pseudonyms_one_manager"]
 
 NODES = ("A", "S1", "S2", "T")
 IPS = {"A": "1.0.0.1", "S1": "1.0.0.2", "S2": "1.0.0.3", "T": "1.0.0.4"}
@@ -308,6 +308,12 @@ FIXED = (
     ("restart", [_reg("A", "S1", 0, "n0"), _req("S1", "A", 0, "n0"), _sleep(1.0), {"op": "restart", "node": "A"},
                  _reg("A", "S1", 0, "n0"), {"op": "replay", "node": "S1", "to": "A", "k": 0}, _sleep(1.0)],
      ("honest_attestation",)),
+    # S1 and S2 are two pseudonyms of ONE user (one IdentityManager, as the CommunicationManager sets them up): what the user
+    # opened to A on pseudonym S1 says nothing about pseudonym S2
+    ("shared_cross_pseudonym", [_adv_many("S1", 12), _adv_many("S2", 7), _reg("A", "S1", 0, "n0"), _req("S1", "A", 0, "n0"),
+                                _sleep(2.0), {"op": "req_missing", "node": "A", "to": "S2", "known": 0}, _sleep(1.0),
+                                {"op": "req_missing", "node": "A", "to": "S1", "known": 3}, _sleep(1.0)],
+     ("honest_attestation", "long_chain_missing_tokens_served", "two_pseudonyms_one_manager")),
 )
 
 
@@ -374,7 +380,7 @@ def cases(tier: str, base_seed: int):  # noqa: ANN201
             if name == "restart" and db == "memory":
                 continue
             yield {"scenario": "fixed:" + name, "seed": base_seed + n, "knobs": {}, "db": db, "ops": copy.deepcopy(ops),
-                   "expect": list(expect)}
+                   "expect": list(expect), "shared_im": name.startswith("shared_")}
     for rep in range(2):
         for name, fn, expect in MOTIFS:
             n += 1
@@ -401,7 +407,8 @@ def cases(tier: str, base_seed: int):  # noqa: ANN201
         db = "file" if r.random() < 0.7 else "memory"
         if db == "memory":
             ops = [o for o in ops if o["op"] != "restart"]
-        yield {"scenario": "random", "seed": seed, "knobs": knobs, "db": db, "ops": ops, "expect": []}
+        yield {"scenario": "random", "seed": seed, "knobs": knobs, "db": db, "ops": ops, "expect": [],
+               "shared_im": r.random() < 0.3}
 
 
 def simplify(case: dict):  # noqa: ANN201
@@ -752,18 +759,20 @@ def execute(case: dict) -> dict:  # noqa: C901, PLR0915
         elif rec["msg"] == 1:
             st["deferred"].append((node, pkt, rec))      # evaluated when the op that sends it has updated the chain
 
+    store_of: dict = {}
+
     def read_rows(node: str) -> set:
         db = nodes[node].im.database
         con = getattr(db, "_connection", None)
         if con is None:
-            return db_rows[node]
+            return db_rows[store_of.get(node, node)]
         return {tuple(bytes(x) for x in row) for row in
                 con.execute("SELECT public_key, authority_key, metadata_pointer, signature FROM Attestations").fetchall()}
 
     def diff_rows(node: str, rec: dict | None) -> None:
         rows = read_rows(node)
-        new = rows - db_rows[node]
-        db_rows[node] = rows
+        new = rows - db_rows[store_of.get(node, node)]
+        db_rows[store_of.get(node, node)] = rows
         for pub, auth, mptr, sig in sorted(new):
             ok = sig_ok(auth, mptr, sig)
             if rec is not None and rec["msg"] == 2:
@@ -818,7 +827,12 @@ def execute(case: dict) -> dict:  # noqa: C901, PLR0915
         for name in NODES:
             node = SimNode(world, name, IPS[name])
             await node.open("udp")
-            node.im = node.call(IdentityManager, db_path(name))
+            if case.get("shared_im") and name == "S2":
+                node.im = nodes["S1"].im          # two pseudonyms of one user share the manager (and its database)
+                store_of["S2"] = "S1"
+                c.probe("two_pseudonyms_one_manager")
+            else:
+                node.im = node.call(IdentityManager, db_path(name))
             node.ov = node.add(IdentityCommunity, IdentitySettings(identity_manager=node.im))
             nodes[name] = node
             kb = node.my_peer.public_key.key_to_bin()
